@@ -221,6 +221,7 @@ class MediaWorld(MediaBase):
         self.retx = 0
         self.seen_rtp = set()
         self.late100 = False
+        self.jb_seen, self.jb_adds, self.requested_again = {}, 0, set()
         self.jb_max = None
         self.n_first = 0
         # decoder seam + origin seams
@@ -370,9 +371,14 @@ class MediaWorld(MediaBase):
                 for i in range(8, len(body) - 3, 4):
                     pid, blp = struct.unpack_from("!HH", body, i)
                     n += 1 + bin(blp).count("1")
+                    listed = [pid] + [(pid + b + 1) & 0xFFFF for b in range(16) if blp & (1 << b)]
                     if self.nack_in_call is not None:
-                        self.nack_in_call.add(pid)
-                        self.nack_in_call.update((pid + b + 1) & 0xFFFF for b in range(16) if blp & (1 << b))
+                        self.nack_in_call.update(listed)
+                    for q in listed:
+                        # (observation) a packet the receiver was already handed, asked for again
+                        if q in self.jb_seen and self.jb_adds - self.jb_seen[q] < 20000:
+                            self.requested_again.add(q)
+                            self.probes["received_packets_requested_again"] += 1
                 self.probes["nacks"] += 1
                 self.log.add("nack", n)
                 if n > 128:
@@ -540,11 +546,21 @@ class MediaWorld(MediaBase):
 
         def add(packet, _orig=jb_add):
             seq = packet.sequence_number
+            self.jb_adds += 1
             if self.jb_max is None or 0 < ((seq - self.jb_max) & 0xFFFF) < 0x8000:
                 self.jb_max = seq
-            elif 100 <= ((self.jb_max - seq) & 0xFFFF) < 0x8000 and not self.late100:
-                self.late100 = True
-                self.probes["packet_100_or_more_late"] += 1
+            elif 100 <= ((self.jb_max - seq) & 0xFFFF) < 0x8000:
+                if seq in self.requested_again and seq in self.jb_seen and not self.violations:
+                    # not the network's doing (known finding F24 is about packets the network delivers late): the
+                    # receiver asked again for a packet it had, and the copy it was sent restarts the jitter buffer
+                    self.violation("C11", "received-packet-requested-again-and-its-copy-restarts-the-jitter-buffer",
+                                   "packet %d had been handed to the jitter buffer, was listed in a later NACK, and its "
+                                   "retransmission arrives %d positions behind the newest packet" % (
+                                       seq, (self.jb_max - seq) & 0xFFFF))
+                if not self.late100:
+                    self.late100 = True
+                    self.probes["packet_100_or_more_late"] += 1
+            self.jb_seen[seq] = self.jb_adds
             return _orig(packet)
 
         jb.add = add
